@@ -63,7 +63,7 @@ func runFold(c *Case, tr *Trace) {
 	d0 := describe(p.Elem())
 	rec := &Recorder{}
 	rec.FailAt = c.Fault
-	it, err := gotype.NewIterator(rec)
+	it, err := gotype.NewIterator(rec, userFolders)
 	if err != nil {
 		panic("harness: NewIterator: " + err.Error())
 	}
@@ -112,7 +112,7 @@ func runGoRoundTrip(c *Case, tr *Trace) {
 		return
 	}
 	if via == "direct" {
-		if err := gotype.Fold(p.Elem().Interface(), un); err != nil {
+		if err := gotype.Fold(p.Elem().Interface(), un, userFolders); err != nil {
 			fail("fold", err)
 			return
 		}
@@ -120,7 +120,7 @@ func runGoRoundTrip(c *Case, tr *Trace) {
 		api := formats[via]
 		sk := &sink{}
 		enc := api.newVisitor(sk, Opts{IgnoreInvalidFloat: false})
-		if err := gotype.Fold(p.Elem().Interface(), enc); err != nil {
+		if err := gotype.Fold(p.Elem().Interface(), enc, userFolders); err != nil {
 			fail("fold", err)
 			return
 		}
@@ -754,7 +754,7 @@ func runGoReuse(c *Case, tr *Trace) {
 	switch comp {
 	case "iter":
 		rec := &Recorder{}
-		it, _ := gotype.NewIterator(rec)
+		it, _ := gotype.NewIterator(rec, userFolders)
 		for _, h := range hist {
 			if err := it.Fold(newValue(&h.T, &h.V).Elem().Interface()); err != nil {
 				res["histerr"] = err.Error()
@@ -764,7 +764,7 @@ func runGoReuse(c *Case, tr *Trace) {
 		mark := len(rec.Events)
 		errR := it.Fold(newValue(&probe.T, &probe.V).Elem().Interface())
 		recF := &Recorder{}
-		itF, _ := gotype.NewIterator(recF)
+		itF, _ := gotype.NewIterator(recF, userFolders)
 		errF := itF.Fold(newValue(&probe.T, &probe.V).Elem().Interface())
 		res["evR"], res["evF"] = evOrEmpty(rec.Events[mark:]), evOrEmpty(recF.Events)
 		res["errR"], res["errF"] = errStr(errR), errStr(errF)
@@ -777,7 +777,7 @@ func runGoReuse(c *Case, tr *Trace) {
 			if err := u.SetTarget(q.Interface()); err != nil {
 				return describe(q.Elem()), err
 			}
-			err := gotype.Fold(newValue(&p.T, &p.V).Elem().Interface(), u)
+			err := gotype.Fold(newValue(&p.T, &p.V).Elem().Interface(), u, userFolders)
 			return describe(q.Elem()), err
 		}
 		for _, h := range hist {
